@@ -1,11 +1,13 @@
 import Knut.FactsAgree.TransPosting
+import Knut.FactsAgree.TransDate
+import Knut.Model.Accrual
 /-!
-# The translated `lib/model/transaction` (Compare, Builder.Build) agrees with the model
+# The translated `lib/model/transaction` (Compare, Builder.Build, expand) agrees with the model
 -/
 namespace Knut.FactsAgree.TransTransaction
 open Knut Knut.GoSem Knut.JournalPrinter
 open Knut.Generated.Go
-open Knut.FactsAgree.TransPosting Knut.FactsAgree.TransAccount
+open Knut.FactsAgree.TransPosting Knut.FactsAgree.TransAccount Knut.FactsAgree.TransDate
 
 /-- a model transaction as the Go value: `srcs` gives every posting its `Src` pointer; a nil and an empty `Targets` slice
 are the same list (the translated functions only copy the field) -/
@@ -162,5 +164,165 @@ example : transaction.Compare
     ⟨⟨0⟩, 5, "a \"b\"", [⟨⟨0⟩, 2, 0, accountGo ⟨["Assets", "A"]⟩, accountGo ⟨["Assets", "B"]⟩, ⟨"CHF", false⟩⟩], []⟩
     = GoSem.Outcome.ok (-1) := by decide +kernel
 example : (transaction.Builder.Build ⟨⟨0⟩, 5, "a \"b\"", [], []⟩).Description = "a 'b'" := by decide +kernel
+
+/-! ## `transaction.expand` (the accrual expansion) -/
+
+/-- the Go transaction of a model transaction as `transaction.Builder.Build` leaves it: double quotes of the description replaced -/
+def txGoD (cur : String → Bool) (src psrc : Ref) (t : Knut.Transaction) : transaction.Transaction :=
+  txGo cur src psrc { t with description := descText t.description }
+
+def ivName : Knut.Interval → String
+  | .once => "once" | .daily => "daily" | .weekly => "weekly" | .monthly => "monthly" | .quarterly => "quarterly" | .yearly => "yearly"
+
+theorem ParseInterval_agrees (iv : Knut.Interval) : date.ParseInterval (ivName iv) = (ivGo iv, none) := by
+  cases iv <;> simp [date.ParseInterval, ivName, ivGo, date.Once, date.Daily, date.Weekly, date.Monthly, date.Quarterly, date.Yearly]
+
+theorem itoa_succ (k : Nat) : Strings.itoa ((k : Int) + 1) = toString (k + 1) := by
+  have : ((k : Int) + 1) = ((k + 1 : Nat) : Int) := by omega
+  simp only [Strings.itoa, this]
+  rfl
+
+theorem itoa_nat (n : Nat) : Strings.itoa (n : Int) = toString n := rfl
+
+theorem partDesc_eq (desc : String) (k n : Nat) :
+    Accrual.partDesc desc k n = desc ++ " (accrual " ++ toString (k + 1) ++ "/" ++ toString n ++ ")" := rfl
+
+theorem foldlE_expandLoop (t : Knut.Transaction) (a : Accrual.Addon)
+    (F : List transaction.Transaction → posting.Posting → GoSem.Outcome (List transaction.Transaction))
+    (g : Knut.Posting → posting.Posting) (conv : Knut.Transaction → transaction.Transaction)
+    (hF : ∀ acc p, F acc (g p) = match Accrual.expandPosting t a p with
+      | .ok txs => GoSem.Outcome.ok (acc ++ txs.map conv)
+      | .panic s => GoSem.Outcome.panic s) :
+    ∀ (ps : List Knut.Posting) (acc : List transaction.Transaction),
+      foldlE F acc (ps.map g) = match Accrual.expandLoop t a ps with
+        | .ok txs => GoSem.Outcome.ok (acc ++ txs.map conv)
+        | .panic s => GoSem.Outcome.panic s := by
+  intro ps
+  induction ps with
+  | nil => intro acc; simp [foldlE, Accrual.expandLoop]
+  | cons p rest ih =>
+    intro acc
+    simp only [List.map_cons, foldlE, hF, Accrual.expandLoop]
+    cases hp : Accrual.expandPosting t a p with
+    | panic s => simp [GoSem.Outcome.bind]
+    | ok txs =>
+      simp only [GoSem.Outcome.bind, ih]
+      cases hr : Accrual.expandLoop t a rest with
+      | panic s => simp
+      | ok more => simp
+
+theorem foldl_ieLoop (t : Knut.Transaction) (acct : Knut.Account) (p : Knut.Posting) (n : Nat) (amount rem : Rat)
+    (G : List transaction.Transaction → (Int × Nat) → List transaction.Transaction) (conv : Knut.Transaction → transaction.Transaction)
+    (hG : ∀ acc dt k, G acc (dt, k) = acc ++ [conv (Accrual.rebook t dt (Accrual.partDesc t.description k n) acct p
+      (if k = 0 then amount + rem else amount))]) :
+    ∀ (ends : List Int) (k : Nat) (acc : List transaction.Transaction),
+      List.foldl G acc (List.zipIdx ends k) = acc ++ (Accrual.ieLoop t acct p n amount rem k ends).map conv := by
+  intro ends
+  induction ends with
+  | nil => intro k acc; simp [Accrual.ieLoop]
+  | cons dt rest ih =>
+    intro k acc
+    simp only [List.zipIdx_cons, List.foldl_cons, hG, ih, Accrual.ieLoop, List.map_cons, List.append_assoc, List.singleton_append]
+
+/-- the generated transaction of `expand` for one posting and one quantity -/
+theorem rebook_agrees (cur : String → Bool) (src : Ref) (t : Knut.Transaction) (dt : Int) (desc : String) (acct : Knut.Account)
+    (p : Knut.Posting) (q : Rat) :
+    transaction.Builder.Build ⟨src, dt, desc,
+      posting.Builder.Build ⟨(GoZero.zero : Ref), q, (GoZero.zero : Rat), accountGo acct, accountGo p.account, commodityGo cur p.commodity⟩,
+      (t.targets.getD []).map (commodityGo cur)⟩
+    = txGoD cur src ⟨0⟩ (Accrual.rebook t dt desc acct p q) := by
+  rw [Builder_Build_agrees]
+  have := TransPosting.Builder_Build_agrees cur ⟨0⟩ acct p.account p.commodity q 0
+  simp only [zero_rat] at this ⊢
+  rw [show (GoZero.zero : Ref) = ⟨0⟩ from rfl, this]
+  simp [txGoD, txGo, Accrual.rebook]
+
+/-- `transaction.expand` (the accrual expansion), with the results of its calls into the registry and the syntax layer as
+parameters: the accrual account was created (`ext1`), both dates parsed (`ext2`, `ext3`), the interval text is `ext4`.
+The translated function returns what the model's `expand` computes — the same transactions in the same order (descriptions
+with the double quotes replaced, as `Builder.Build` does), the same error, the same panics (`NewPartition` on the zero time,
+`QuoRem` by zero) — never out of fuel, never an index out of range. -/
+theorem expand_agrees (cur : String → Bool) (src psrc accr : Ref) (t : Knut.Transaction) (a : Accrual.Addon)
+    (hwf : a.account.wf = true) :
+    transaction.expand (txGo cur src psrc t) accr (accountGo a.account, none) (a.start, none) (a.stop, none) (ivName a.interval)
+      = match Accrual.expand t a with
+        | .ok txs => GoSem.Outcome.ok (txs.map (txGoD cur src ⟨0⟩), none)
+        | .error => GoSem.Outcome.ok ([], some ⟨"accrual period ends before it starts"⟩)
+        | .panic s => GoSem.Outcome.panic s := by
+  unfold transaction.expand Accrual.expand
+  simp only [hwf, Bool.not_true, Bool.false_eq_true, if_false, Option.isSome_none, Time.Before, ParseInterval_agrees]
+  by_cases hlt : a.stop < a.start
+  · simp [hlt]
+  · simp only [hlt, decide_false, Bool.false_eq_true, if_false, zero_list]
+    simp only [txGo]
+    rw [foldlE_expandLoop t a _ (postingGo cur psrc) (txGoD cur src ⟨0⟩) ?hF]
+    case hF =>
+      intro acc p
+      simp only [postingGo, IsIE_agrees]
+      unfold Accrual.expandPosting
+      by_cases hie : p.account.isIE = true
+      · simp only [hie, Bool.not_true, Bool.false_eq_true, if_false, if_true]
+        have hnp := NewPartition_agrees ⟨a.start, a.stop⟩ a.interval 0
+        simp only [periodGo] at hnp
+        rw [hnp]
+        cases hpart : newPartition ⟨a.start, a.stop⟩ a.interval 0 with
+        | panic s => simp [outcomeGo, GoSem.Outcome.bind]
+        | ok part =>
+          simp only [outcomeGo, GoSem.Outcome.bind, Size_agrees, EndDates_agrees, Decimal.QuoRem, Decimal.NewFromInt,
+            Accrual.quoRemPlaces]
+          have h1 : (1 : Int).toNat = 1 := rfl
+          rw [h1]
+          cases hq : Dec.quoRem p.quantity ((part.size : Int) : Rat) 1 with
+          | none => simp
+          | some r =>
+            obtain ⟨amount, rem⟩ := r
+            simp only []
+            rw [foldl_ieLoop t a.account p part.size amount rem _ (txGoD cur src ⟨0⟩) ?hG]
+            case hG =>
+              intro acc2 dt k
+              simp only [itoa_succ, itoa_nat, Decimal.Add]
+              have hd : t.description ++ " (accrual " ++ toString (k + 1) ++ "/" ++ toString part.size ++ ")"
+                  = Accrual.partDesc t.description k part.size := (partDesc_eq _ _ _).symm
+              rw [hd]
+              have hk : (decide ((k : Int) = 0)) = decide (k = 0) := by
+                by_cases h0 : k = 0 <;> simp [h0]
+              rw [hk]
+              have := rebook_agrees cur src t dt (Accrual.partDesc t.description k part.size) a.account p
+                (if k = 0 then amount + rem else amount)
+              simp only [decide_eq_true_eq]
+              rw [← this]
+      · have hie' : p.account.isIE = false := by simpa using hie
+        simp only [hie', Bool.not_false, Bool.false_eq_true, if_false, if_true, GoSem.Outcome.bind]
+        have := rebook_agrees cur src t t.date t.description a.account p p.quantity
+        rw [this]
+        simp
+    cases Accrual.expandLoop t a t.postings <;> simp [GoSem.Outcome.bind]
+
+/-- errors of the calls into the registry and the syntax layer are passed on unchanged, in the order of the calls -/
+theorem expand_account_error (tx : transaction.Transaction) (accr : Ref) (acc : account.Account) (e : GoSem.Error)
+    (x2 x3 : Int × Option GoSem.Error) (iv : String) :
+    transaction.expand tx accr (acc, some e) x2 x3 iv = GoSem.Outcome.ok ([], some e) := by
+  simp [transaction.expand]
+
+theorem expand_start_error (tx : transaction.Transaction) (accr : Ref) (acc : account.Account) (d : Int) (e : GoSem.Error)
+    (x3 : Int × Option GoSem.Error) (iv : String) :
+    transaction.expand tx accr (acc, none) (d, some e) x3 iv = GoSem.Outcome.ok ([], some e) := by
+  simp [transaction.expand]
+
+theorem expand_end_error (tx : transaction.Transaction) (accr : Ref) (acc : account.Account) (d1 d2 : Int) (e : GoSem.Error)
+    (iv : String) :
+    transaction.expand tx accr (acc, none) (d1, none) (d2, some e) iv = GoSem.Outcome.ok ([], some e) := by
+  simp [transaction.expand]
+
+/-- non-vacuity: 100 CHF of expenses accrued monthly over 2024-01-01 … 2024-03-31 (days 738885 … 738975): three transactions
+of 33.4, 33.3, 33.3 dated at the month ends -/
+example : (transaction.expand
+    ⟨⟨1⟩, 738860, "rent", [⟨⟨2⟩, -100, 0, accountGo ⟨["Assets", "Bank"]⟩, accountGo ⟨["Expenses", "Rent"]⟩, ⟨"CHF", false⟩⟩,
+                           ⟨⟨2⟩, 100, 0, accountGo ⟨["Expenses", "Rent"]⟩, accountGo ⟨["Assets", "Bank"]⟩, ⟨"CHF", false⟩⟩], []⟩
+    ⟨0⟩ (accountGo ⟨["Assets", "Accrual"]⟩, none) (738885, none) (738975, none) "monthly").bind
+      (fun r => GoSem.Outcome.ok (r.1.map (fun tx => (tx.Date, tx.Description, tx.Postings.map (·.Quantity))), r.2))
+    = GoSem.Outcome.ok ([(738860, "rent", [-100, 100]),
+        (738915, "rent (accrual 1/3)", [-334/10, 334/10]), (738944, "rent (accrual 2/3)", [-333/10, 333/10]),
+        (738975, "rent (accrual 3/3)", [-333/10, 333/10])], none) := by decide +kernel
 
 end Knut.FactsAgree.TransTransaction
